@@ -571,7 +571,7 @@ _ex(r'\\[23][0-7][0-7]', 'K22b legacy octal escapes \\200..\\377 in string liter
 _ex(r'\\000[0-9]', "K22c \\000 followed by a digit in string literals ('\\0007' -> \"\\07\")")
 _ex(r'\\00?[89]', 'K22d \\0 / \\00 followed by 8 or 9 in string literals (kept as \\08, \\09 inside a template literal: SyntaxError)')
 _ex(r'\\0{1,3}\\(x3[0-9]|u003[0-9]|u\{0*3[0-9]\}|6[0-7]|7[01])', "K22g a NUL escape followed by an escape that decodes to a digit ('\\0\\x31' -> \"\\01\")")
-_ex(r"""\\0["']\s*\+\s*["'][0-9]""", "K22e '\\0'+'1' merged to \"\\01\"")
+_ex(r"""\\[0-7]{1,2}["']\s*\+\s*["'][0-9]""", "K22e a string ending in a short octal escape + a string starting with a digit ('\\0'+'1' merged to \"\\01\", '\\1'+'2' to \"\\12\")")
 _ex(r'0[xX][0-9a-fA-F_]{11,}n|0[bB][01_]{64,}n|0[oO][0-7_]{22,}n', 'K24 long hexadecimal/binary/octal BigInt literals (the n suffix is dropped)')
 _ex(r'\?\s*\(?\s*([A-Za-z_$][\w$]*)\(([^(),]*)\)\s*\)?\s*:\s*\(?\s*\1\(([^(),]*)\)', 'K25 cond?f(x):f(y) (rewritten to f(cond?x:y): the callee is read before the condition is evaluated)')
 _ex(r'\\x24|\\u0024|\\u\{0*24\}|\\44', 'K22f escapes of the dollar sign (\\x24, \\u0024, \\44) in string literals (decoded to $ before { inside a template literal)')
@@ -2052,9 +2052,10 @@ def literal_programs(ctx):
     tl = [x for x, v in zip(tl, ok) if v]
     for i in range(0, len(tl), 8):
         progs.append('var x="X",y=1;function tag(s,...v){out(s,s.raw,v)}\n' + '\n'.join('out(%s)' % s for s in tl[i:i + 8]))
-    for i in range(0, len(CONCATS), 6):
-        progs.append('var x="X";\n' + '\n'.join('out(%s)' % s for s in CONCATS[i:i + 6]))
-        progs.append('function t(x){\n' + '\n'.join('out(%s)' % s for s in CONCATS[i:i + 6]) + '}')
+    concats = [x for x in CONCATS if not excluded('out(%s)' % x)]
+    for i in range(0, len(concats), 6):
+        progs.append('var x="X";\n' + '\n'.join('out(%s)' % s for s in concats[i:i + 6]))
+        progs.append('function t(x){\n' + '\n'.join('out(%s)' % s for s in concats[i:i + 6]) + '}')
     nums = list(NUMBERS) + ctx.numgen_lexemes
     rnd = ctx.rnd
     stmts = []
